@@ -31,7 +31,7 @@ package keeper
 //@ ensures [aggregate_is_the_one_for_this_deposit_and_index] err == nil ==> arg(GetAggregateByIndex, index) == reportIndex && arg(GetAggregateByIndex, queryId) == ret(GetDepositQueryId, 0) && arg(GetDepositQueryId, depositId) == depositId && arg(DecodeDepositReportValue, reportValue) == ret(GetAggregateByIndex, 0).AggregateValue
 //@ ensures [report_at_least_twelve_hours_old] err == nil ==> blocktime(ctx) - ret(GetAggregateByIndex, 1) >= 43200000000000
 //@ ensures [mints_exactly_the_decoded_amount] err == nil ==> bank.supply == old(bank.supply) + coins(ret(DecodeDepositReportValue, 1))
-//@ ensures [mints_the_amount_field_of_the_reported_deposit_in_loya] err == nil && abidec_int("address,string,uint256,uint256", hexdec(ret(GetAggregateByIndex, 0).AggregateValue), 2) / 1000000000000 < 9223372036854775808 ==> bank.supply == old(bank.supply) + abidec_int("address,string,uint256,uint256", hexdec(ret(GetAggregateByIndex, 0).AggregateValue), 2) / 1000000000000
+//@ ensures [mints_the_amount_field_of_the_reported_deposit_in_loya] err == nil ==> bank.supply == old(bank.supply) + abidec_int("address,string,uint256,uint256", hexdec(ret(GetAggregateByIndex, 0).AggregateValue), 2) / 1000000000000
 //@ ensures [nothing_minted_on_failure_before_mint] err != nil && bank.supply != old(bank.supply) ==> bank.supply == old(bank.supply) + coins(ret(DecodeDepositReportValue, 1))
 //@ ensures [bridge_account_keeps_nothing] err == nil && acc(ret(DecodeDepositReportValue, 0)) != module("bridge") ==> bank.bal[module("bridge")] == old(bank.bal[module("bridge")])
 
@@ -254,8 +254,8 @@ package keeper
 
 //@ func (k Keeper).DecodeDepositReportValue(ctx, reportValue) (recipient, amount, tip, err)
 //@ ensures [recipient_is_the_second_field] err == nil ==> accstr(bytes(recipient)) == abidec_str("address,string,uint256,uint256", hexdec(reportValue), 1)
-//@ ensures [amount_is_the_third_field_in_loya] err == nil && depfield_int(reportValue, 2) / 1000000000000 < 9223372036854775808 ==> coins(amount) == depfield_int(reportValue, 2) / 1000000000000
-//@ ensures [tip_is_the_fourth_field_in_loya] err == nil && depfield_int(reportValue, 3) / 1000000000000 < 9223372036854775808 ==> coins(tip) == depfield_int(reportValue, 3) / 1000000000000
+//@ ensures [amount_is_the_third_field_in_loya] err == nil ==> coins(amount) == depfield_int(reportValue, 2) / 1000000000000
+//@ ensures [tip_is_the_fourth_field_in_loya] err == nil ==> coins(tip) == depfield_int(reportValue, 3) / 1000000000000
 //@ ensures [malformed_value_is_rejected] !ishexbytes(reportValue) ==> err != nil
 //@ ensures [reads_only] nothing_written()
 
